@@ -15,7 +15,8 @@
    ideal) it holds.  The behaviours' terminal states are the predicted outcomes replayed on the VM. *)
 EXTENDS Naturals, TLC, Json
 CONSTANTS FramesMax, SlotsMax, Widths, Temps, Depths, CheckSlots,
-          Nests, SafeNest, UnsafeNest     \* nesting depths of data; what the host stack certainly carries / certainly does not
+          Nests, SafeNest, UnsafeNest,    \* nesting depths of data; what the host stack certainly carries / certainly does not
+          FiberNests                      \* depths of fibers calling fibers
 VARIABLES frames, slots, left, w, t, depth, status
 vars == <<frames, slots, left, w, t, depth, status>>
 
@@ -43,7 +44,12 @@ Clear == (slots + Margin < SlotsMax) \/ (status = "overrun" /\ slots > SlotsMax 
    demands a reported error (or success) at any depth; the code recurses without a bound - the recorded finding
    `deeply-nested-data-overflows-native-stack`.  Depths up to SafeNest must simply work. *)
 NestOutcome(n) == IF n <= SafeNest THEN "done" ELSE IF n >= UnsafeNest THEN "native-overflow" ELSE "unclear"
+(* A fiber has frames and slots of its own: a fiber that calls another fiber spends nothing of its budget beyond the frame it is
+   in, so fibers nest to any depth (memory permitting) - there is no bound to report - and a run that dies inside nested fibers
+   leaves no count behind: after any number of such runs the interpreter still nests fibers to any depth. *)
+FiberNestOutcome(n) == "done"
 EmitNests == (frames = 1 /\ status = "run" /\ w = (CHOOSE x \in Widths : TRUE) /\ t = (CHOOSE x \in Temps : TRUE) /\ depth = (CHOOSE x \in Depths : TRUE)) =>
-                \A n \in Nests : PrintT(<<"NEST", ToJson([nest |-> n, status |-> NestOutcome(n)])>>)
+                /\ \A n \in Nests : PrintT(<<"NEST", ToJson([nest |-> n, status |-> NestOutcome(n)])>>)
+                /\ \A n \in FiberNests : PrintT(<<"FNEST", ToJson([nest |-> n, status |-> FiberNestOutcome(n)])>>)
 Emit == Terminal => PrintT(<<"LIMIT", ToJson([w |-> w, t |-> t, depth |-> depth, status |-> status, frames |-> frames, slots |-> slots, clear |-> Clear])>>)
 =============================================================================
